@@ -587,3 +587,121 @@ Proof.
   rewrite Hc'. unfold spec_started in *. destruct (scan n false pre) eqn:E; [discriminate|].
   rewrite scan_app_start; [reflexivity|assumption|]. simpl. now rewrite spec_cfg_existsb, Hc.
 Qed.
+
+(** * Part 5: the statements exported to Props/C08.v and Props/C09.v *)
+
+Lemma c08_right_function ops d :
+  (forall n tr, In (n, tr) (deliver (exec rinit ops) d) <->
+      exists h s, spec_cfg n ops = Some h /\ spec_started n ops = Some s
+                  /\ h_sub h = d_sub d /\ h_subtopic h = d_topic d /\ tr = dispatch h s d)
+  /\ NoDup (map fst (deliver (exec rinit ops) d))
+  /\ (forall h s, fn_calls (dispatch h s d) = [(h_fn h, overlay (d_ctx d) h)]).
+Proof.
+  split; [|split].
+  - intros n tr. rewrite in_deliver_iff. split; intros (h & s & H); exists h, s;
+      [rewrite dispatch_spec | rewrite <- dispatch_spec]; exact H.
+  - apply deliver_nodup.
+  - intros h s. rewrite dispatch_spec. apply spec_fn_calls.
+Qed.
+
+Lemma c08_publish_target h s d :
+  publish_calls (dispatch h s d) = expected_publish h s d
+  /\ (Forall (fun r => r_app r = None) (effective (h_name h) (s_chain s)) ->
+      chain_outcome h s d = fn_outcome h (d_out d))
+  /\ (h_pub h <> PDisabled -> fn_outcome h (d_out d) = d_out d).
+Proof.
+  split; [|split].
+  - rewrite dispatch_spec. apply spec_publish_calls.
+  - apply chain_outcome_plain.
+  - intros H. unfold fn_outcome. destruct (h_pub h); try reflexivity. contradiction.
+Qed.
+
+Lemma c08_settles_as_c02 h s d :
+  settles (dispatch h s d) =
+  [settle_eqb (st (fst (handle (pub_kind (h_pub h)) (d_pb d) (CR PreNone (chain_outcome h s d))))) Acked].
+Proof. rewrite dispatch_spec, spec_settles, handled_ok_is_handle; reflexivity. Qed.
+
+Lemma c08_no_publisher_output_nacks h s d x l :
+  (forall id ty, h_pub h <> PReal id ty) -> chain_outcome h s d = Ret (x :: l) ->
+  publish_calls (dispatch h s d) = [] /\ settles (dispatch h s d) = [false].
+Proof.
+  intros Hp Ho. rewrite dispatch_spec, spec_publish_calls, spec_settles. unfold expected_publish, handled_ok.
+  rewrite Ho. simpl. destruct (h_pub h) as [id ty| |]; [exfalso; now apply (Hp id ty)| |]; split; reflexivity.
+Qed.
+
+Lemma c08_context_values h s d :
+  fn_calls (dispatch h s d) = [(h_fn h, overlay (d_ctx d) h)]
+  /\ (forall p t outs m c, In (p, t, outs) (publish_calls (dispatch h s d)) -> In (m, c) outs ->
+        c = overlay (if N.eqb m 0 then d_ctx d else cx0) h)
+  /\ (forall c,
+        (h_name h <> 0%N -> c_handler (overlay c h) = h_name h)
+        /\ (c_pubname (overlay c h) = if N.eqb (pub_ty (h_pub h)) 0 then c_pubname c else pub_ty (h_pub h))
+        /\ (h_subty h <> 0%N -> c_subname (overlay c h) = h_subty h)
+        /\ (h_subtopic h <> 0%N -> c_subtopic (overlay c h) = h_subtopic h)
+        /\ (h_pubtopic h <> 0%N -> c_pubtopic (overlay c h) = h_pubtopic h)
+        /\ (h_name h = 0%N -> c_handler (overlay c h) = c_handler c)
+        /\ (h_subty h = 0%N -> c_subname (overlay c h) = c_subname c)
+        /\ (h_subtopic h = 0%N -> c_subtopic (overlay c h) = c_subtopic c)
+        /\ (h_pubtopic h = 0%N -> c_pubtopic (overlay c h) = c_pubtopic c)).
+Proof.
+  split; [|split].
+  - rewrite dispatch_spec. apply spec_fn_calls.
+  - intros p t outs m c. rewrite dispatch_spec. apply produced_ctx.
+  - intros c. apply overlay_fields.
+Qed.
+
+(** a message that arrives without router keys: exactly this handler's five values, inside the
+    function and on every produced message *)
+Lemma c08_context_values_fresh h s d : d_ctx d = cx0 ->
+  fn_calls (dispatch h s d) = [(h_fn h, ctx_of h)]
+  /\ (forall p t outs m c, In (p, t, outs) (publish_calls (dispatch h s d)) -> In (m, c) outs -> c = ctx_of h).
+Proof.
+  intros H. destruct (c08_context_values h s d) as (H1 & H2 & _). rewrite H in *. rewrite overlay_fresh in H1.
+  split; [assumption|]. intros p t outs m c Hp Hm. rewrite (H2 p t outs m c Hp Hm).
+  destruct (N.eqb m 0); apply overlay_fresh.
+Qed.
+
+Lemma c09_nesting h s d :
+  mw_marks (dispatch h s d) =
+  map EEnter (map r_id (effective (h_name h) (s_chain s)))
+  ++ [EFn (h_fn h) (overlay (d_ctx d) h)]
+  ++ exits (map r_id (effective (h_name h) (s_chain s))) (chain_outcome h s d).
+Proof.
+  rewrite dispatch_spec. unfold mw_marks, spec_trace. cbv zeta.
+  set (keep := fun e => match e with EEnter _ | EExit _ | EFn _ _ => true | _ => false end).
+  assert (Hall : forall {A} (f : A -> ev) l, (forall x, keep (f x) = true) -> filter keep (map f l) = map f l).
+  { intros A f l H. induction l as [|a l IH]; simpl; [reflexivity|]. now rewrite H, IH. }
+  assert (Hnone : forall {A} (f : A -> ev) l, (forall x, keep (f x) = false) -> filter keep (map f l) = []).
+  { intros A f l H. induction l as [|a l IH]; simpl; [reflexivity|]. now rewrite H, IH. }
+  rewrite !filter_app. rewrite (Hnone _ _ (s_subdecs s)) by reflexivity.
+  rewrite (Hall _ EEnter) by reflexivity. simpl.
+  assert (Hex : forall ids o, filter keep (exits ids o) = exits ids o).
+  { intros ids o. unfold exits. destruct o; try reflexivity; now apply Hall. }
+  rewrite Hex.
+  assert (Hrest : filter keep
+    match chain_outcome h s d with
+    | Ret [] => [ESettle true]
+    | Ret ((_ :: _) as outs) =>
+        map (fun x : N => EPubDec x (h_pubtopic h) outs) (s_pubdecs s) ++
+        match h_pub h with
+        | PReal id _ => [EPublish id (h_pubtopic h) (map (fun m0 : M => (m0, out_ctx h (overlay (d_ctx d) h) m0)) outs);
+                         ESettle (accepts (d_pb d))]
+        | _ => [ESettle false]
+        end
+    | _ => [ESettle false]
+    end = []).
+  { destruct (chain_outcome h s d) as [[|x l]|?|]; try reflexivity.
+    rewrite filter_app, Hnone by reflexivity. now destruct (h_pub h). }
+  rewrite Hrest. now rewrite app_nil_r.
+Qed.
+
+Lemma c09_chain_membership n chain r :
+  In r (effective n chain) <-> In r chain /\ (r_router r = true \/ r_hname r = n).
+Proof.
+  split.
+  - intros H. split; [now apply filter_In in H|now apply effective_sound in H].
+  - intros [H1 H2]. now apply effective_complete.
+Qed.
+
+Lemma c09_order h s d : c09_proj (dispatch h s d) = spec_order h s d.
+Proof. rewrite dispatch_spec. apply spec_trace_order. Qed.
